@@ -85,19 +85,28 @@ class ControlledPool:
                         msg = _recv(p2c_r)
                         if msg is None or msg == 'stop':
                             break
-                        ordinal = msg
-                        CURRENT['task_ordinal'] = ordinal
-                        CURRENT['log'] = []
-                        try:
-                            fn(tasks[ordinal])
-                            res = ('ok', None)
-                        except BaseException as e:  # noqa  (the real pool worker also catches BaseException)
-                            res = ('exc', f'{type(e).__name__}: {e}')
+                        # one work item of the real pool = one chunk: `[fn(x) for x in chunk]` - the first exception aborts the
+                        # rest of the chunk (concurrent.futures.process._process_chunk)
+                        replies = []
+                        aborted = None
+                        for ordinal in msg:
+                            if aborted is not None:
+                                replies.append((ordinal, wid, ('skipped', f'chunk aborted by iteration {aborted}'), []))
+                                continue
+                            CURRENT['task_ordinal'] = ordinal
+                            CURRENT['log'] = []
+                            try:
+                                fn(tasks[ordinal])
+                                res = ('ok', None)
+                            except BaseException as e:  # noqa  (the real pool worker also catches BaseException)
+                                res = ('exc', f'{type(e).__name__}: {e}')
+                                aborted = ordinal
+                            replies.append((ordinal, wid, res, CURRENT['log']))
                         try:
                             sys.stdout.flush()
                         except Exception:  # noqa
                             pass
-                        _send(c2p_w, (ordinal, wid, res, CURRENT['log']))
+                        _send(c2p_w, replies)
                 except BaseException:  # noqa
                     code = 1
                     try:
@@ -110,28 +119,35 @@ class ControlledPool:
             os.close(c2p_w)
             self.children.append((pid, p2c_w, c2p_r))
 
-    def map(self, fn, iterable, **kw):
+    def map(self, fn, iterable, timeout=None, chunksize=1):
         tasks = list(iterable)
         K = len(tasks)
+        if chunksize < 1:
+            raise ValueError('chunksize must be >= 1.')
+        chunks = [list(range(i, min(i + chunksize, K))) for i in range(0, K, chunksize)]
+        CURRENT['chunks'] = chunks
         assignment = CURRENT['assignment']
+        if isinstance(assignment, dict):      # one assignment per possible number of work items (the driver decides the chunking)
+            assignment = assignment.get(str(len(chunks)))
         if assignment is None:
-            assignment = [0] * K
-        if len(assignment) != K:
-            raise RuntimeError(f'assignment has {len(assignment)} entries for {K} tasks')
-        W = (max(assignment) + 1) if K else 0
+            assignment = [0] * len(chunks)
+        CURRENT['assignment_used'] = list(assignment)
+        if len(assignment) != len(chunks):
+            raise RuntimeError(f'assignment has {len(assignment)} entries for {len(chunks)} work items ({K} tasks, chunksize {chunksize})')
+        W = (max(assignment) + 1) if chunks else 0
         try:
             sys.stdout.flush()
         except Exception:  # noqa
             pass
         self._fork_workers(W, fn, tasks)
-        for i in range(K):
-            pid, w, r = self.children[assignment[i]]
-            _send(w, i)
+        for ci, chunk in enumerate(chunks):
+            pid, w, r = self.children[assignment[ci]]
+            _send(w, chunk)
             reply = _recv(r)
             if reply is None:
-                self.outcomes.append((i, assignment[i], ('died', 'worker died'), []))
+                self.outcomes.extend((i, assignment[ci], ('died', 'worker died'), []) for i in chunk)
             else:
-                self.outcomes.append(reply)
+                self.outcomes.extend(reply)
         CURRENT['outcomes'] = self.outcomes
         return iter([None] * K)
 
